@@ -48,7 +48,9 @@ def transfer(method, l1, l2, sszx, cexp, reduce_at, reduce_to, misbehave, seed, 
         srv = w.add_peer(RefBlockServer("srv", *SRV, representation=rep, szx=sszx, reduce_at=reduce_at, reduce_to=reduce_to,
                                         misbehave=misbehave))
         pl = body(l1, seed, 7) if method != "GET" else b""
-        m = Message(code=METHODS[method], uri_path=["res"], payload=pl)
+        m = Message(code=METHODS[method], uri_path=["res"], uri_query=["k=v"], payload=pl, accept=0)
+        if pl:
+            m.opt.content_format = 60     # a body comes with its format; like every other option it belongs to each follow-up request
         m.remote = cli.remote(SRV)
         m.remote.maximum_block_size_exp = cexp
         req = cli.ctx.request(m)
@@ -243,7 +245,9 @@ class BwScenario(NetScenario):
         st.srv = w.add_peer(RefBlockServer("srv", *SRV, representation=st.rep, szx=p["szx"]))
 
         def issue(st):
-            m = Message(code=METHODS[p["method"]], uri_path=["res"], payload=st.pl)
+            m = Message(code=METHODS[p["method"]], uri_path=["res"], uri_query=["k=v"], payload=st.pl, accept=0)
+            if st.pl:
+                m.opt.content_format = 60
             m.remote = st.cli.remote(SRV)
             st.req = st.cli.ctx.request(m)
         st.script.append(("request", issue))
